@@ -25,9 +25,10 @@ func init() {
 }
 
 type followCase struct {
-	Case int        `json:"case"`
-	Tree model.Tree `json:"tree"`
-	Reqs []string   `json:"reqs"`
+	Case        int        `json:"case"`
+	Tree        model.Tree `json:"tree"`
+	Reqs        []string   `json:"reqs"`
+	WithInclude bool       `json:"withInclude,omitempty"` // the transfer also sets an include list (that selects nothing by itself)
 }
 
 func hasWild(s string) bool { return strings.ContainsAny(s, "*?[") }
@@ -199,11 +200,11 @@ func followChild(args []string) {
 		if !hang && r.err == nil {
 			// end to end: a transfer with these follow-paths
 			fo := &fsutil.FilterOpt{FollowPaths: fc.Reqs}
-			if fc.Case%2 == 0 && r.l != nil {
+			if fc.WithInclude && r.l != nil {
 				// together with an include list (one that selects nothing by itself): the followed paths must still arrive
 				fo.IncludePatterns = []string{"zz-no-such-entry"}
 			}
-			ev["withInclude"] = fc.Case%2 == 0 && r.l != nil
+			ev["withInclude"] = fc.WithInclude && r.l != nil
 			ffs, err := fsutil.NewFilterFS(fsys, fo)
 			if err == nil {
 				sres, err := RunSync(fc.Case, src, dst, SyncOpts{Mode: "dirty", Differ: "metadata", CapS2R: 8, CapR2S: 8, SrcFS: ffs, NoProgress: true,
@@ -354,6 +355,9 @@ func Follow(c *Ctx) error {
 	}
 	for i := range cases {
 		cases[i].Case = c.NextCase()
+		if c.Replay == "" {
+			cases[i].WithInclude = i%2 == 0
+		}
 	}
 	self, err := os.Executable()
 	if err != nil {
